@@ -569,6 +569,9 @@ func (c *Contracts) LoadFile(path string) error {
 					return fail(l, "ghost var <name> <type>")
 				}
 				g := &GhostVar{Name: fs[0], Type: strings.Join(fs[1:], " ")}
+				if strings.HasPrefix(g.Name, "ev_src_") {
+					c.Assumptions = append(c.Assumptions, "prophecy variable "+g.Name+": defined as the concatenation of all values channel "+strings.TrimPrefix(g.Name, "ev_src_")+" will ever deliver; every received chunk is assumed to be its next piece and a closed channel to mean it was received completely @ "+l.where)
+				}
 				if _, ok := c.Ghosts[g.Name]; !ok {
 					c.GhostOrder = append(c.GhostOrder, g.Name)
 				}
